@@ -106,9 +106,18 @@ def finish(prop, out, key, index, tier, case, fingerprint, sample=None, n=1):
     return Case(out, fp, n, dict(case=case, key=key, index=index, tier=tier), sample)
 
 
-def build_flat(req, cls, hashes, forever=()):
-    """one scheduler whose members are n0..nk with requirement map req"""
-    jobs = {i: N("n%d" % i, hashes[i], forever=(i in forever)) for i in req}
+def build_flat(req, cls, hashes, forever=(), nested=None):
+    """one scheduler whose members are n0..nk with requirement map req;
+    `nested` maps some indices to 'empty' / 'full': those members are nestable
+    Scheduler objects (an empty one is falsy: len() == 0) instead of plain jobs"""
+    nested = nested or {}
+    jobs = {}
+    for i in req:
+        if i in nested:
+            inner = [] if nested[i] == 'empty' else [N("inner%d" % i, 50 + i)]
+            jobs[i] = S("n%d" % i, hashes[i], *inner, forever=(i in forever))
+        else:
+            jobs[i] = N("n%d" % i, hashes[i], forever=(i in forever))
     for a, bs in req.items():
         for b in bs:
             jobs[a].required.add(jobs[b])      # raw edge: self-loops allowed here on purpose
@@ -334,7 +343,10 @@ def c15_tree(prop, key, index, tier):
 
 
 def c15_history(prop, key, index, tier):
-    """one scheduler object, edges toggled back and forth between cyclic and acyclic"""
+    """one scheduler object, edges toggled back and forth between cyclic and
+    acyclic; now and then the scheduler is listed with list_safe() (the method
+    documented for broken graphs), or its jobs are moved into a brand-new
+    scheduler (possibly nested in a wrapper), and the questions are asked again"""
     out = Out(prop)
     rng = random.Random(key)
     n = rng.randint(2, 7)
@@ -345,28 +357,58 @@ def c15_history(prop, key, index, tier):
     sched, jobs = build_flat(req, cls, hashes)
     flips = 0
     prev = True
+    steps = []
     for step in range(rng.randint(4, 12)):
-        a, b = rng.sample(range(n), 2)
-        if b in req[a]:
-            req[a].discard(b)
-            jobs[a].requires(jobs[b], remove=True)
+        r = rng.random()
+        if r < 0.12:
+            buf = io.StringIO()
+            try:
+                with contextlib.redirect_stdout(buf):
+                    sched.list_safe()
+                steps.append('list_safe()')
+                out.count('list_safe() calls before asking again')
+            except BaseException as exc:                # noqa
+                out.violation('list_safe-raised', "list_safe() raised %r" % (exc,))
+        elif r < 0.24:
+            # regroup: the same jobs, a new scheduler object
+            members = list(sched.jobs)
+            rng.shuffle(members)
+            cls = rng.choice([P, S])
+            sched = P(*members) if cls is P else S("TOP%d" % step, 0, *members)
+            steps.append('moved to a new %s' % cls.__name__)
+            out.count('job sets moved into a new scheduler')
         else:
-            req[a].add(b)
-            jobs[a].requires(jobs[b])
+            a, b = rng.sample(range(n), 2)
+            if b in req[a]:
+                req[a].discard(b)
+                jobs[a].requires(jobs[b], remove=True)
+            else:
+                req[a].add(b)
+                jobs[a].requires(jobs[b])
+            steps.append('toggle n%d->n%d' % (a, b))
         req_names = {"n%d" % x: {"n%d" % y for y in ys} for x, ys in req.items()}
         acyclic = R.is_acyclic(req_names)
         if acyclic != prev:
             flips += 1
         prev = acyclic
-        where = "%s after %d edits %s" % (cls.__name__, step + 1, {k: sorted(v) for k, v in req_names.items()})
+        where = "%s after %s %s" % (type(sched).__name__, steps, {k: sorted(v) for k, v in req_names.items()})
         got = _topo_checks(out, sched, None, None, None, where)
         if got is not None and got is not acyclic:
             out.violation('check_cycles-wrong-after-edit', "%s: check_cycles() returned %r, the graph is %s"
                           % (where, got, 'acyclic' if acyclic else 'cyclic'))
         _own_level_order(out, sched, req_names, sorted(req_names), acyclic, where)
+        if acyclic and rng.random() < 0.3:
+            _list_ids(out, sched, where)
+        if acyclic and rng.random() < 0.15 and isinstance(sched, S):
+            # the whole scheduler nested, alone, in a wrapper
+            wrapper = S("WRAP%d" % step, 1, sched)
+            got = _topo_checks(out, wrapper, None, None, None, where + " (nested alone in a wrapper)")
+            if got is not True:
+                out.violation('check_cycles-wrong-tree', "%s nested alone in a wrapper: check_cycles() returned %r" % (where, got))
+            wrapper.jobs.clear()
     out.count('cyclic<->acyclic transitions', flips)
     out.nontrivial = flips > 0
-    return finish(prop, out, key, index, tier, 'c15_history', (key,), dict(nodes=n, transitions=flips))
+    return finish(prop, out, key, index, tier, 'c15_history', (key,), dict(nodes=n, transitions=flips, steps=steps))
 
 
 # ------------------------------------------------------------------ C16
@@ -422,37 +464,55 @@ def c16_tree(prop, key, index, tier):
                 kinds.add('across schedulers')
     for k in kinds:
         out.count('trees with edges %s' % k)
-    before = {j: set(j.required) for j in jobs}
-    expect_fine = all(before[j] <= set(member_of[j].jobs) for j in jobs)
-    buf = io.StringIO()
-    try:
-        with contextlib.redirect_stdout(buf):
-            r1 = top.sanitize()
-            r2 = top.sanitize()
-    except BaseException as exc:                        # noqa
-        out.violation('sanitize-raised', "sanitize() raised %r" % (exc,))
-        return finish(prop, out, key, index, tier, 'c16_tree', (key,))
-    out.count('sanitize() calls compared')
-    out.count('trees that were already closed' if expect_fine else 'trees with dangling requirements')
-    if nested:
-        out.count('trees with nested schedulers')
-        if expect_fine:
-            out.count('closed trees with nested schedulers')
-    for j in jobs:
-        exp = before[j] & set(member_of[j].jobs)
-        got = set(j.required)
-        if got - exp:
-            out.violation('not-closed', "after sanitize() %s (in %s) still requires non-members %s"
-                          % (j, member_of[j], names(got - exp)))
-        if exp - got:
-            out.violation('removed-too-much', "sanitize() removed the requirement(s) %s of %s although both are "
-                          "members of %s" % (names(exp - got), j, member_of[j]))
-    if r1 is not expect_fine:
-        out.violation('result-untruthful', "sanitize() returned %r but %s (top %s, %d nested scheduler(s))"
-                      % (r1, "nothing had to be removed" if expect_fine else "requirements had to be removed",
-                         type(top).__name__, len(nested)))
-    if r2 is not True:
-        out.violation('second-call', "a second sanitize() returned %r" % (r2,))
+    if rng.random() < 0.5:
+        # state left behind by earlier queries: reverse links computed while the
+        # dangling requirements are still there
+        for s_ in scheds:
+            list(s_.exit_jobs())
+            for j in list(s_.jobs)[:2]:
+                list(s_.successors(j))
+        out.count('trees queried (reverse links computed) before sanitize()')
+    rounds = 2 if rng.random() < 0.5 else 1
+    for rnd in range(rounds):
+        if rnd:
+            # second round on the same objects: new requirements, some dangling, appear
+            for j in rng.sample(jobs, min(len(jobs), rng.randint(1, 3))):
+                r = rng.choice(pool)
+                if r is not j:
+                    j.required.add(r)
+            out.count('second rounds (new edges after a first sanitize())')
+        before = {j: set(j.required) for j in jobs}
+        expect_fine = all(before[j] <= set(member_of[j].jobs) for j in jobs)
+        buf = io.StringIO()
+        try:
+            with contextlib.redirect_stdout(buf):
+                r1 = top.sanitize()
+                r2 = top.sanitize()
+        except BaseException as exc:                    # noqa
+            out.violation('sanitize-raised', "sanitize() raised %r" % (exc,))
+            return finish(prop, out, key, index, tier, 'c16_tree', (key,))
+        out.count('sanitize() calls compared')
+        out.count('trees that were already closed' if expect_fine else 'trees with dangling requirements')
+        if nested:
+            out.count('trees with nested schedulers')
+            if expect_fine:
+                out.count('closed trees with nested schedulers')
+        tag = " (round %d)" % (rnd + 1) if rounds > 1 else ""
+        for j in jobs:
+            exp = before[j] & set(member_of[j].jobs)
+            got = set(j.required)
+            if got - exp:
+                out.violation('not-closed', "after sanitize()%s %s (in %s) still requires non-members %s"
+                              % (tag, j, member_of[j], names(got - exp)))
+            if exp - got:
+                out.violation('removed-too-much', "sanitize()%s removed the requirement(s) %s of %s although both are "
+                              "members of %s" % (tag, names(exp - got), j, member_of[j]))
+        if r1 is not expect_fine:
+            out.violation('result-untruthful', "sanitize()%s returned %r but %s (top %s, %d nested scheduler(s))"
+                          % (tag, r1, "nothing had to be removed" if expect_fine else "requirements had to be removed",
+                             type(top).__name__, len(nested)))
+        if r2 is not True:
+            out.violation('second-call', "a second sanitize()%s returned %r" % (tag, r2))
     out.nontrivial = bool(nested) or not expect_fine
     return finish(prop, out, key, index, tier, 'c16_tree', (key,),
                   dict(top=type(top).__name__, schedulers=len(scheds), atoms=len(atoms),
@@ -623,9 +683,14 @@ def c17_exhaustive(prop, key, index, tier):
     rng.shuffle(hashes)
     out.count('DAGs with %d nodes' % n)
     for cls in (P, S):
+        nested = {int(a[1:]): rng.choice(['empty', 'full']) for a in members if rng.random() < 0.2}
+        if nested:
+            out.count('graphs in which some members are nested schedulers')
+            if 'empty' in nested.values():
+                out.count('graphs with an empty nested scheduler as a member')
         sched, jobs = build_flat({int(a[1:]): {int(b[1:]) for b in bs} for a, bs in req.items()}, cls,
                                  {int(a[1:]): hashes[k] for k, a in enumerate(sorted(members))},
-                                 forever={int(a[1:]) for a in forever})
+                                 forever={int(a[1:]) for a in forever}, nested=nested)
         jobs = {"n%d" % k: v for k, v in jobs.items()}
         starts_list = [s for s in R.subsets_upto(sorted(members), 3) if s]
         where = "%s %s" % (cls.__name__, {k: sorted(v) for k, v in req.items()})
@@ -663,7 +728,12 @@ def c17_random(prop, key, index, tier):
     forever = {a for a in members if rng.random() < 0.25}
     hashes = [rng.randrange(32) for _ in range(n)]
     cls = rng.choice([P, S])
-    sched, jobs = build_flat(base, cls, hashes, forever={int(a[1:]) for a in forever})
+    nested = {i: rng.choice(['empty', 'full']) for i in base if rng.random() < 0.2}
+    if nested:
+        out.count('graphs in which some members are nested schedulers')
+        if 'empty' in nested.values():
+            out.count('graphs with an empty nested scheduler as a member')
+    sched, jobs = build_flat(base, cls, hashes, forever={int(a[1:]) for a in forever}, nested=nested)
     jobs = {"n%d" % k: v for k, v in jobs.items()}
     mem = sorted(members)
     starts_list = [{a} for a in mem] + [set(rng.sample(mem, rng.randint(2, 3))) for _ in range(10)]
@@ -815,17 +885,37 @@ def _between(req, members, starts, ends, keep_starts, keep_ends):
     return kept
 
 
-def _check_between(out, req, cls, hashes, starts, ends, ks, ke, where, iterators=False):
+def _check_between(out, req, cls, hashes, starts, ends, ks, ke, where, iterators=False, foreign=(0, 0)):
+    """foreign = (number of jobs that are not members added to starts, to ends):
+    they are downstream / upstream of nothing; whatever the library does with
+    them, the members kept must be the documented ones and the result closed"""
     members = set(req)
     sched, jobs = _fresh(req, cls, hashes)
-    kept = _between(req, members, starts, ends, ks, ke)
+    fs = [N("fs%d" % k, 70 + k) for k in range(foreign[0])]
+    fe = [N("fe%d" % k, 80 + k) for k in range(foreign[1])]
+    kept = _between(req, members, starts, ends, ks, ke) if not (fs or fe) else None
+    if kept is None:
+        rq = {a: req[a] & members for a in members}
+        succ = R.reverse(rq, members)
+        up, down = R.closure(rq, members), R.closure(succ, members)
+        downs = set().union(*[down[x] for x in starts]) if (starts or fs) else set(members)
+        ups = set().union(*[up[x] for x in ends]) if (ends or fe) else set(members)
+        kept = downs & ups
+        if ks:
+            kept |= starts
+        if ke:
+            kept |= ends
+        out.count('keep_only_between() calls with jobs that are not members among starts/ends')
     out.count('keep_only_between() calls compared')
     kw = dict(keep_starts=ks, keep_ends=ke)
-    if starts or not iterators:
-        kw['starts'] = iter([jobs[s] for s in sorted(starts)]) if iterators else [jobs[s] for s in sorted(starts)]
-    if ends or not iterators:
-        kw['ends'] = iter([jobs[e] for e in sorted(ends)]) if iterators else [jobs[e] for e in sorted(ends)]
-    desc = "keep_only_between(starts=%s, ends=%s, keep_starts=%s, keep_ends=%s)" % (sorted(starts), sorted(ends), ks, ke)
+    sl = [jobs[x] for x in sorted(starts)] + fs
+    el = [jobs[x] for x in sorted(ends)] + fe
+    if sl or not iterators:
+        kw['starts'] = iter(sl) if iterators else (set(sl) if foreign[0] else sl)
+    if el or not iterators:
+        kw['ends'] = iter(el) if iterators else el
+    desc = "keep_only_between(starts=%s, ends=%s, keep_starts=%s, keep_ends=%s)" % (
+        sorted(starts) + [f.name for f in fs], sorted(ends) + [f.name for f in fe], ks, ke)
     buf = io.StringIO()
     try:
         with contextlib.redirect_stdout(buf):
@@ -834,10 +924,10 @@ def _check_between(out, req, cls, hashes, starts, ends, ks, ke, where, iterators
         out.violation('between-raised', "%s: %s raised %r" % (where, desc, exc))
         return
     mem2, req2 = _snapshot(sched)
-    if mem2 != kept:
-        out.violation('between-members', "%s: %s kept %s, expected %s" % (where, desc, sorted(mem2), sorted(kept)))
+    if mem2 & members != kept:
+        out.violation('between-members', "%s: %s kept %s, expected %s" % (where, desc, sorted(mem2 & members), sorted(kept)))
         return
-    for a in mem2:
+    for a in mem2 & members:
         want = req[a] & mem2
         if req2[a] != want:
             out.violation('between-requirements', "%s: %s: %s requires %s, expected %s"
@@ -884,6 +974,11 @@ def c18_exhaustive(prop, key, index, tier):
                 for ke in (True, False):
                     _check_between(out, req, cls, hashes, starts, ends, ks, ke, where,
                                    iterators=(len(starts) + len(ends)) % 2 == 1)
+    for _ in range(6):
+        starts = set(rng.sample(members, rng.randint(0, min(2, n))))
+        ends = set(rng.sample(members, rng.randint(0, min(2, n))))
+        _check_between(out, req, cls, hashes, starts, ends, rng.random() < 0.5, rng.random() < 0.5, where,
+                       iterators=rng.random() < 0.3, foreign=rng.choice([(1, 0), (0, 1), (2, 0), (1, 1)]))
     out.nontrivial = n >= 3
     return finish(prop, out, key, index, tier, 'c18_exhaustive', (n, i),
                   dict(requires={k: sorted(v) for k, v in req.items()}))
@@ -907,6 +1002,29 @@ def c18_history(prop, key, index, tier):
         if len(members) < 2:
             break
         mem = sorted(members)
+        if rng.random() < 0.4:
+            # something that computes reverse links ...
+            list(sched.exit_jobs())
+            sched.successors_downstream(jobs[rng.choice(mem)])
+            log.append('queries')
+            out.count('queries between surgery operations')
+        if rng.random() < 0.4:
+            # ... and a manual edit of the graph afterwards
+            cands = [(a, b) for a in mem for b in req[a]]
+            if cands and rng.random() < 0.6:
+                a, b = rng.choice(cands)
+                req[a].discard(b)
+                jobs[a].requires(jobs[b], remove=True)
+                log.append('%s.requires(%s, remove=True)' % (a, b))
+            else:
+                a, b = rng.sample(mem, 2)
+                trial = {k: set(v) for k, v in req.items()}
+                trial[a].add(b)
+                if R.is_acyclic(trial, members):
+                    req[a].add(b)
+                    jobs[a].requires(jobs[b])
+                    log.append('%s.requires(%s)' % (a, b))
+            out.count('manual edits between surgery operations')
         op = rng.choice(['bypass', 'bypass', 'keep_only', 'between', 'between'])
         before_clo = R.closure(req, members)
         buf = io.StringIO()
@@ -980,6 +1098,15 @@ class MSched:
         self.jobs = set()
 
 
+class MNest(MJob):
+    """a nestable Scheduler: a job (it can be required, sit in a sequence, be a
+    member) and a container (scheduler= target, add / update)"""
+
+    def __init__(self, name):
+        MJob.__init__(self, name)
+        self.jobs = set()
+
+
 def m_flat(items):
     out = []
     for x in items:
@@ -1035,7 +1162,7 @@ def c19_program(prop, key, index, tier):
         if depth < 3 and rng.random() < 0.3:
             t = rng.choice(['list', 'tuple', 'set'])
             return (t, [nest(depth + 1) for _ in range(rng.randint(0, 3))])
-        return ('name', pick('js'))
+        return ('name', pick('jsn'))
 
     def realize(a, table):
         if a[0] == 'name':
@@ -1058,11 +1185,17 @@ def c19_program(prop, key, index, tier):
 
     def compare(where):
         for n in names_:
-            if n[0] == 'j':
+            if n[0] in 'jn':
                 a = {x.name for x in real[n].required}
                 b = {x.name for x in model[n].req}
                 if a != b:
                     return 'requirements', "%s: %s.required is %s, documented semantics give %s" % (where, n, sorted(a), sorted(b))
+            if n[0] == 'n':
+                a = sorted(x.name for x in real[n].jobs)
+                b = sorted(x.name for x in model[n].jobs)
+                if a != b:
+                    return 'membership', "%s: nested scheduler %s holds %s, expected %s" % (where, n, a, b)
+                continue
             elif n[0] == 's':
                 a = [x.name for x in real[n].jobs]
                 b = [x.name for x in model[n].jobs]
@@ -1079,7 +1212,7 @@ def c19_program(prop, key, index, tier):
 
     nsteps = rng.randint(3, 12)
     ops = ['job', 'job', 'job', 'seq', 'seq', 'append', 'append', 'requires', 'requires', 'remove',
-           'sched', 'add', 'update', 'seqreq', 'seqasreq']
+           'sched', 'add', 'update', 'seqreq', 'seqasreq', 'nest', 'nest']
     for step in range(nsteps):
         op = rng.choice(ops)
         desc = None
@@ -1088,13 +1221,30 @@ def c19_program(prop, key, index, tier):
                 n = new_name('S')
                 real[n], model[n] = PureScheduler(), MSched()
                 desc = "%s = PureScheduler()" % n
+            elif op == 'nest':
+                # a nestable Scheduler, created empty (an empty scheduler is falsy: len() == 0)
+                n = new_name('n')
+                names_.pop()
+                r = rng.random()
+                reqarg = nest() if r < 0.3 else ('name', pick('jsn')) if r < 0.7 else ('name', None)
+                sc = pick('Sn') if rng.random() < 0.5 else None
+                desc = "%s = Scheduler(required=%s, scheduler=%s)" % (n, show(reqarg), sc)
+                rn = S(n, rng.randrange(16), required=realize(reqarg, real), scheduler=real.get(sc))
+                mn = MNest(n)
+                m_requires(mn, realize(reqarg, model))
+                names_.append(n)
+                real[n], model[n] = rn, mn
+                if sc:
+                    model[sc].jobs.add(mn)
+                out.count('nestable schedulers created empty, with required= / scheduler=')
             elif op == 'job':
                 n = new_name('j')
                 names_.pop()
-                reqarg = nest() if rng.random() < 0.5 else ('name', None)
-                sc = pick('S') if rng.random() < 0.4 else None
+                r = rng.random()
+                reqarg = nest() if r < 0.35 else ('name', pick('jsn')) if r < 0.6 else ('name', None)
+                sc = pick('Sn') if rng.random() < 0.4 else None
                 desc = "%s = Job(required=%s, scheduler=%s)" % (n, show(reqarg), sc)
-                rj = N(n, required=realize(reqarg, real), scheduler=real.get(sc))
+                rj = N(n, rng.randrange(16), required=realize(reqarg, real), scheduler=real.get(sc))
                 mj = MJob(n)
                 m_requires(mj, realize(reqarg, model))
                 names_.append(n)
@@ -1104,9 +1254,10 @@ def c19_program(prop, key, index, tier):
             elif op == 'seq':
                 n = new_name('s')
                 names_.pop()
-                items = [pick('js') for _ in range(rng.randint(0, 4))]
-                reqarg = nest() if rng.random() < 0.4 else ('name', None)
-                sc = pick('S') if rng.random() < 0.4 else None
+                items = [pick('jsn') for _ in range(rng.randint(0, 4))]
+                r = rng.random()
+                reqarg = nest() if r < 0.3 else ('name', pick('jsn')) if r < 0.5 else ('name', None)
+                sc = pick('Sn') if rng.random() < 0.4 else None
                 desc = "%s = Sequence(%s, required=%s, scheduler=%s)" % (n, items, show(reqarg), sc)
                 ms = MSeq()
                 ms.jobs = m_flat([model.get(i) if i else None for i in items])
@@ -1132,7 +1283,7 @@ def c19_program(prop, key, index, tier):
                 s = pick('s', False)
                 if not s:
                     continue
-                items = [pick('js') for _ in range(rng.randint(0, 3))]
+                items = [pick('jsn') for _ in range(rng.randint(0, 3))]
                 desc = "%s.append(%s)" % (s, items)
                 ms = model[s]
                 new = m_flat([model.get(i) if i else None for i in items])
@@ -1148,7 +1299,7 @@ def c19_program(prop, key, index, tier):
                 if len(new) >= 2:
                     out.count('append() with several jobs')
             elif op in ('requires', 'remove'):
-                j = pick('j', False)
+                j = pick('jn', False)
                 if not j:
                     continue
                 arg = nest()
@@ -1172,7 +1323,7 @@ def c19_program(prop, key, index, tier):
                     out.count('KeyError on absent requirement')
                     # state after a partial removal is unspecified: resynchronise the model
                     for n in names_:
-                        if n[0] == 'j':
+                        if n[0] in 'jn':
                             model[n].req = {model[x.name] for x in real[n].required}
             elif op == 'seqreq':
                 s = pick('s', False)
@@ -1186,7 +1337,7 @@ def c19_program(prop, key, index, tier):
                 m_requires(model[s].jobs[0], realize(arg, model))
                 real[s].requires(realize(arg, real))
             elif op == 'seqasreq':
-                j = pick('j', False)
+                j = pick('jn', False)
                 s = pick('s', False)
                 if not j or not s:
                     continue
@@ -1207,17 +1358,17 @@ def c19_program(prop, key, index, tier):
                                   % (step, desc, log, merr or 'no error', rerr or 'no error'))
                     break
             elif op == 'add':
-                sc, x = pick('S', False), pick('js', False)
+                sc, x = pick('Sn', False), pick('jsn', False)
                 if not sc or not x:
                     continue
                 desc = "%s.add(%s)" % (sc, x)
                 real[sc].add(real[x])
                 model[sc].jobs.update(m_flat([model[x]]))
             elif op == 'update':
-                sc = pick('S', False)
+                sc = pick('Sn', False)
                 if not sc:
                     continue
-                items = [pick('js') for _ in range(rng.randint(0, 3))]
+                items = [pick('jsn') for _ in range(rng.randint(0, 3))]
                 desc = "%s.update(%s)" % (sc, items)
                 real[sc].update([real.get(i) if i else None for i in items])
                 model[sc].jobs.update(m_flat([model.get(i) if i else None for i in items]))
